@@ -27,6 +27,9 @@ pub enum OnReady {
     Panic,
     /// Return an event-stream response; the sender is parked in `HandlerState::senders`.
     EventStream,
+    /// Answer normally, but keep a clone of the request body beyond the call (an
+    /// application's "recent uploads" list): parked in `HandlerState::kept_bodies`.
+    RespondKeepingClone,
 }
 
 #[derive(Clone, Debug, PartialEq, Eq)]
@@ -114,6 +117,7 @@ pub struct HandlerState {
     pub default_plan: Option<Plan>,
     pub calls: Vec<Call>,
     pub senders: Vec<(String, servlin::EventSender)>,
+    pub kept_bodies: Vec<servlin::RequestBody>,
     /// Bodies larger than this are not copied into the call log (digest only) - not used yet.
     pub max_in_memory_seen: usize,
     /// When set, builds the answer for requests whose body is ready (after logging the call).
@@ -230,6 +234,11 @@ pub fn scripted_handler(req: Request) -> Response {
             OnReady::GetBodyAgain(m) => Response::get_body_and_reprocess(m),
             OnReady::Drop => Response::drop_connection(),
             OnReady::Panic => sim_core::deliberate_panic(),
+            OnReady::RespondKeepingClone => {
+                let copy = req.body.clone();
+                HANDLER.with(|h| h.borrow_mut().kept_bodies.push(copy));
+                plan.resp.build()
+            }
             OnReady::EventStream => {
                 let (sender, resp) = Response::event_stream();
                 HANDLER.with(|h| h.borrow_mut().senders.push((path, sender)));
